@@ -494,10 +494,17 @@ std::string gen_pattern(Rng &r, const std::vector<std::string> &roots) {
     }
     if (!any_mandatory) p += (p.empty() ? "" : ":") + std::string("OMEGa");
     if (r.chance(1, 2)) p += "?";
+    if (p[0] != '[' && r.chance(1, 10)) p = ":" + p;   // an entry written with its root colon
     return p;
 }
 
+bool g_spell_plain_long = false;   // every keyword in its long form, upper case, no leading colon (what a code generator on the controller side emits)
 std::string spell(Rng &r, const Pat &p) {
+    if (g_spell_plain_long && !p.common) {
+        std::string s;
+        for (size_t i = 0; i < p.kws.size(); i++) s += (i ? ":" : "") + p.kws[i].longf + (p.kws[i].numeric && r.chance(1, 2) ? std::to_string(r.below(10)) : "");
+        return s + (p.query ? "?" : "");
+    }
     if (p.common) return "*" + (r.chance(1, 2) ? p.common_name : [&] {
         std::string s = p.common_name;
         for (auto &c : s) c = (char) tolower((unsigned char) c);
@@ -532,7 +539,25 @@ std::string spell(Rng &r, const Pat &p) {
 
 void generate_c02(Rng &r, const GenOpts &g, Plan &p) {
     std::vector<std::string> table;
-    if (r.chance(1, 5)) {
+    g_spell_plain_long = false;
+    if (r.chance(1, 10)) {
+        // a deep tree: leaves that differ only in their last keyword(s), below a prefix of more than 32 characters
+        static const char *chain[] = {"CALCulate", "MEASurement", "LIMit", "CLIPping", "STATe", "CHANnellist"};
+        static const char *leaves[][2] = {{"UPPer", "LOWer"}, {"MINimum", "MAXimum"}, {"RISE", "FALL"}, {"STARt", "STOP1"}, {"ENABle", "DISAble"}};
+        std::string prefix;
+        long depth = r.range(3, 6);
+        for (long i = 0; i < depth; i++) prefix += std::string(i ? ":" : "") + chain[i];
+        long npairs = r.range(1, 3);
+        for (long i = 0; i < npairs; i++) {
+            size_t k = r.below(5);
+            bool q = r.chance(1, 2);
+            table.push_back(prefix + ":" + leaves[k][0] + (q ? "?" : ""));
+            table.push_back(prefix + ":" + leaves[k][1] + (q ? "?" : ""));
+            if (r.chance(1, 3)) table.push_back(prefix + ":" + leaves[k][0] + ":" + leaves[(k + 1) % 5][0] + (q ? "?" : ""));
+        }
+        for (size_t i = table.size(); i > 1; i--) std::swap(table[i - 1], table[r.below(i)]);
+        g_spell_plain_long = r.chance(2, 3);
+    } else if (r.chance(1, 5)) {
         for (auto s : SHIPPED) table.push_back(s);
     } else {
         std::vector<std::string> roots;
@@ -611,6 +636,7 @@ void generate_c02(Rng &r, const GenOpts &g, Plan &p) {
         msg += term[r.below(3)];
         p.ops.push_back(Op("msg", {}, msg));
     }
+    g_spell_plain_long = false;
     (void) g;
 }
 
